@@ -714,3 +714,56 @@ def assume_mean_mode_retained(p):
         return None
 
     return alg.map_atoms(p, f)
+
+
+def kill_contradictions(p):
+    """drop terms whose indicator factors are jointly unsatisfiable on one wavenumber (numeric bounds only),
+    e.g. 1{0 <= k} * 1{k < 0}; applied inside transform atoms as well"""
+
+    def clean(q):
+        out = Poly()
+        for m, c in q.t.items():
+            lo, hi = {}, {}
+            for a, e in m:
+                if a[0] == "ind" and a[1] in ("le", "lt"):
+                    l, r = a[2], a[3]
+                    ln, rn = l.as_number(), r.as_number()
+                    if ln is not None and len(r.t) == 1 and rn is None:
+                        ((mm, cc),) = r.t.items()
+                        if len(mm) == 1 and mm[0][0][0] == "k" and mm[0][1] == 1 and cc == ONE:
+                            # ln <(=) k
+                            v = (ln, a[1] == "lt")
+                            k = mm[0][0]
+                            if k not in lo or v > lo[k]:
+                                lo[k] = v
+                    if rn is not None and len(l.t) == 1 and ln is None:
+                        ((mm, cc),) = l.t.items()
+                        if len(mm) == 1 and mm[0][0][0] == "k" and mm[0][1] == 1 and cc == ONE:
+                            v = (rn, a[1] == "lt")
+                            k = mm[0][0]
+                            if k not in hi or v[0] < hi[k][0] or (v[0] == hi[k][0] and v[1]):
+                                hi[k] = v
+            dead = False
+            for k in lo:
+                if k in hi:
+                    (l, ls), (h, hs) = lo[k], hi[k]
+                    if l > h or (l == h and (ls or hs)):
+                        dead = True
+            if not dead:
+                out = out + Poly({m: c})
+        return out
+
+    def f(a):
+        return None
+
+    # clean nested polynomials first (multipliers inside I atoms), then the top level
+    def g(a):
+        if a[0] == "I":
+            inner = clean(a[1])
+            if inner != a[1]:
+                if inner.is_zero():
+                    return Poly()
+                return Poly.atom(("I", inner) + tuple(a[2:]))
+        return None
+
+    return clean(alg.map_atoms(p, g))
